@@ -298,8 +298,8 @@ def shared_layout(ctx):
                     f.line)
     # frame -> routine mapping by code_start
     fr = repo.func('qvm.dbg', 'Cmd.find_routine')
-    ok = 'routine.start_offset <= addr < routine.end_offset' in \
-        unparse(fr.node)
+    from .. import pat
+    ok = pat.has('_R.start_offset <= addr < _R.end_offset', fr.node)
     ctx.instance(rule, f'{fr.file}:Cmd.find_routine')
     if not ok:
         ctx.finding(rule, f'{fr.file}:Cmd.find_routine',
